@@ -17,6 +17,7 @@ import (
 )
 
 type c08Case struct {
+	Leftover string     `json:"leftover"` // residue of an earlier crashed operation in the work area
 	Cfg    *vlib.Config `json:"cfg"`
 	Pre    []preUser    `json:"pre"`
 	Op     Op           `json:"op"`
@@ -63,6 +64,7 @@ func genC08(t *rapid.T) c08Case {
 	if kind == "init" {
 		c.Op.User, c.Op.Admin = "root", true
 	}
+	c.Leftover = rapid.SampledFrom([]string{"", "", "random-name", "user-name", "user-file-name", "many"}).Draw(t, "leftover")
 	return c
 }
 
@@ -193,6 +195,17 @@ func TestC08CrashAtomicity(t *testing.T) {
 			t.Fatalf("VERIF-INFRA %v", err)
 		}
 		defer s.cleanup()
+		if c.Leftover != "" {
+			// a permitted residue: temp files left by an earlier killed add/update (longer than any new record)
+			junk := append([]byte("argon2id:1:1:AAAAAAAAAAAAAAAAAAAAAA==:AAAAAAAAAAAAAAAAAAAAAA==\nstale-aux: "), bytes.Repeat([]byte("S"), 500)...)
+			os.Mkdir(filepath.Join(s.base, ".tmp"), 0o700)
+			names := map[string][]string{"random-name": {"123456789"}, "user-name": {c.Op.User}, "user-file-name": {fileName(c.Op.User, c.Op.Admin), fileName(c.Op.User, !c.Op.Admin)},
+				"many": {"1", "22", c.Op.User, fileName(c.Op.User, c.Op.Admin), "tmp", ".hidden"}}[c.Leftover]
+			for _, n := range names {
+				os.WriteFile(filepath.Join(s.base, ".tmp", n), junk, 0o600)
+			}
+			vlib.Class("work-area-had-leftovers")
+		}
 		res, out, err := s.trace([]Op{c.Op}, nil, false)
 		if err != nil || len(res.Ops) != 1 || len(out) != 1 {
 			t.Fatalf("VERIF-INFRA trace failed: %v (ops %d)", err, len(res.Ops))
